@@ -327,6 +327,8 @@ def campaign_tables(ck: Check) -> None:
     for k in ("raisesBeforeWrites", "restoresSome", "restoresNone", "writesOnlyInLoop", "tableMeetsContract"):
         camp.hit(f"{k}={vals.get(k)}")
     ck.notes["table_refuter"] = vals.get("refuter")
+    camp.hit(f"effectsAfterRaises={vals.get('effectsAfterRaises')}")
+    ck.notes["context_refuter"] = vals.get("ctxRefuter")   # the effect step before a may-raise step, context manager / helpers included
     ck.notes["refusal_contract_refuter"] = vals.get("contractRefuter")
     ck.notes["refusals_extracted"] = [{"fn": r[0], "exc": r[1], "msg": r[2], "conds": r[3], "after_parse": r[4], "before_first_write": r[5]} for r in generate_steps.refusals()]
     pre, loop, post, *_ = generate_steps.tables()
@@ -786,6 +788,242 @@ def campaign_refusals(ck: Check, n_seeded: int, only=None, stop_at_first: bool =
     camp.wall_s = time.time() - t0
 
 
+# ---------------------------------------------------------------- output locations: where the output goes, and what a failed run leaves THERE
+# (location, what is requested): the parents of the output may not exist yet; a failed run must not leave them behind
+LOCATIONS = [
+    # name, path of the output below the scratch parent, directories that exist beforehand (below the scratch parent), a file that exists beforehand
+    ("file_two_missing_parents", "a/b/models.py", [], None),
+    ("file_one_missing_parent", "gen/models.py", [], None),
+    ("file_missing_parent_below_existing", "existing/sub/models.py", ["existing"], None),
+    ("file_inside_existing_dir", "existing/models.py", ["existing"], None),
+    ("file_inside_existing_dir_overwrite", "existing/models.py", ["existing"], "existing/models.py"),
+    ("dir_below_missing", "a/pkg", [], None),
+    ("dir_below_two_missing", "a/b/pkg", [], None),
+    ("dir_inside_existing_dir", "existing/pkg", ["existing"], None),
+    ("dir_existing_below_existing", "existing/pkg", ["existing", "existing/pkg"], None),
+    ("file_parent_is_a_file", "blocker/models.py", [], "blocker"),
+]
+LOCATION_FORMS = ["absolute", "relative", "relative_dotdot"]
+
+NON_ASCII_DOC = json.dumps({"title": "Pet", "description": "café", **obj({"id": {"type": "integer"}})})
+NON_ASCII_MODULAR = json.dumps({"definitions": {"a.A": {"description": "naïve", **obj({"i": {"type": "integer"}})}, "b.B": obj({"n": {"type": "number"}})}})
+
+# failure kinds at every stage of the pipeline (genuine ones first, then a stage made to raise from the harness) + the success control
+LOCATION_FAILURES = [
+    # name, (single-module text, modular text), input_file_type, opts, injected stage or None
+    ("success_control", None, "jsonschema", {}, None),
+    ("unresolvable_ref", (json.dumps(obj({"x": {"$ref": "#/definitions/Nope"}})), json.dumps({"title": "Root", **obj({"x": {"$ref": "no-such-file.json#/definitions/Nope"}}), "definitions": {"a.A": obj({"i": {"type": "integer"}}), "b.B": obj({"n": {"type": "number"}})}})), "jsonschema", {}, None),
+    ("unparsable_text", ('{"type": "object", "properties": {', "a: [1, 2\nb: {"), "jsonschema", {}, None),
+    ("unparsable_auto", ("{{{ not a document", "{{{ not a document"), "auto", {}, None),
+    ("no_models", (json.dumps({"openapi": "3.0.0", "info": {"title": "t", "version": "1"}, "paths": {}}),) * 2, "openapi", {}, None),
+    ("modular_into_file", "swap", "jsonschema", {}, None),       # the modular document into a file-like location (refused after the parse)
+    ("encoding_failure", (NON_ASCII_DOC, NON_ASCII_MODULAR), "jsonschema", {"encoding": "ascii", "use_schema_description": True}, None),
+    ("missing_header_file", None, "jsonschema", {"custom_file_header_path": "<missing>"}, None),
+    ("formatter_failure", None, "jsonschema", {"custom_formatters": ["no_such_formatter_module.for_c20"]}, None),
+    ("injected:parser.__init__", None, "jsonschema", {}, "parser.__init__"),
+    ("injected:parser.parse_raw", None, "jsonschema", {}, "parser.parse_raw"),
+    ("injected:sort_data_models", None, "jsonschema", {}, "sort_data_models"),
+    ("injected:DataModel.render", None, "jsonschema", {}, "DataModel.render"),
+    ("injected:format_code", None, "jsonschema", {"formatters": ["black", "isort"]}, "CodeFormatter.format_code"),
+    ("injected:get_version", None, "jsonschema", {"enable_version_header": True}, "get_version"),
+]
+
+
+def location_run(ck: Check, camp, loc: str, failure: str, form: str, text: str | None = None, base_cls: dict | None = None) -> dict | None:
+    """one real run with the output at a location whose parents may not exist; the property's oracle on the complete tree of the
+    scratch root (empty directories are entries of the listing) and os.getcwd() before/after."""
+    name, rel, dirs, pre_file = next(l for l in LOCATIONS if l[0] == loc)
+    fname, texts, ftype, opts, stage = next(f for f in LOCATION_FAILURES if f[0] == failure)
+    wants_dir = not rel.endswith(".py")
+    if text is None:
+        if texts == "swap":
+            text = DOCS["modular"][0]
+        elif texts is None:
+            text = DOCS["modular" if wants_dir else "single"][0]
+        else:
+            text = texts[1 if wants_dir else 0]
+    root = Path(tempfile.mkdtemp(dir=e2e.scratch_root())).resolve()
+    work = root / "parent"
+    work.mkdir()
+    (root / "cwd").mkdir()
+    (work / "unrelated.txt").write_text("do not touch\n")
+    for d_ in dirs:
+        (work / d_).mkdir(parents=True)
+        (work / d_ / "keep.txt").write_text("earlier content\n")
+    if pre_file:
+        (work / pre_file).write_text("# previous content\nPREVIOUS = 1\n")
+    out = work / rel
+    if form == "relative":
+        out_arg, cwd = Path(rel), work
+    elif form == "relative_dotdot":
+        out_arg, cwd = Path("..") / work.name / rel, root / "cwd"
+    else:
+        out_arg, cwd = out, root / "cwd"
+    run_opts = dict(opts)
+    if run_opts.get("custom_file_header_path") == "<missing>":
+        run_opts["custom_file_header_path"] = root / "no-such-header.txt"
+    before = snapshot(root)
+    fired = None
+    try:
+        if stage is None:
+            err, cwd_after = call_generate(text, ftype, out_arg, run_opts, cwd)
+        else:
+            st = {s[0]: s for s in stages()}[stage]
+            with Inject(st[1], st[2], 1, Injected("injected fault")) as inj:
+                err, cwd_after = call_generate(text, ftype, out_arg, run_opts, cwd)
+            fired = inj.fired
+    finally:
+        after = snapshot(root)
+        shutil.rmtree(root, ignore_errors=True)
+    camp.evaluations += 1
+    diff = tree_diff(before, after)
+    inp = {"location": {"name": loc, "failure": failure, "form": form, "text": text}}
+    cls = {"kind": "location", "stage": failure, "output_state": loc, "out_form": form, **(base_cls or {})}
+    camp.hit(f"location:{loc}")
+    camp.hit(f"failure:{failure}")
+    camp.hit(f"output-path:{form}")
+    camp.hit(("failed:" + type(err).__name__) if err else "succeeded")
+    if fired is not None:
+        camp.hit("injected_fault_reached" if fired else "failed_before_injected_stage")
+    camp.distinct.add(json.dumps(inp, sort_keys=True))
+    what = f"output {str(out_arg)!r} ({loc}; {'directories ' + str(dirs) + ' exist' if dirs else 'no directory below the scratch parent exists'}), failure kind {failure}"
+    if Path(cwd_after) != cwd:
+        ck.fail({**cls, "oracle": "cwd_restored", "mechanism": "cwd_changed"}, inp, f"os.getcwd() changed during the run ({what})")
+    out_rel = str(out.relative_to(root))
+    if err is not None:
+        if diff:
+            new_dirs = [x for x in diff if x.endswith("absent -> dir")]
+            mech = "directory_left_by_failed_run" if new_dirs and len(new_dirs) == len(diff) else ("os_error_after_open" if isinstance(err, OSError) else "changed_before_raise")
+            ck.fail({**cls, "oracle": "failed_run_tree_unchanged", "mechanism": mech}, inp,
+                    f"generate() raised {type(err).__name__} and the file tree changed ({what}): {diff[:4]}")
+    else:
+        # a successful run may create the output and the directories that lead to it, nothing else
+        def allowed(x: str) -> bool:
+            k = x.split(":")[0]
+            return k == out_rel or k.startswith(out_rel + "/") or (out_rel.startswith(k + "/") and x.endswith("absent -> dir"))
+        outside = [x for x in diff if not allowed(x)]
+        if outside:
+            ck.fail({**cls, "oracle": "success_writes_inside_output", "mechanism": "write_outside_output"}, inp, f"a successful run changed entries outside the output ({what}): {outside[:4]}")
+        if failure != "success_control":
+            camp.hit("did_not_fail:" + failure)
+    if len(camp.samples) < 3 and err is not None and "missing" in loc:
+        camp.samples.append({"location": loc, "failure": failure, "output_path": form, "error": type(err).__name__, "tree_changed": bool(diff)})
+    return {"failed": err is not None, "error": None if err is None else type(err).__name__, "diff": diff}
+
+
+def location_product(rng, full: bool, n_seeded: int) -> list[tuple[str, str, str, str | None]]:
+    """(location, failure kind, way the path is written, document text or None): quick = every (location, failure kind) pair with ONE
+    way of writing the path (rotating, so that every way meets every location and every failure kind over the campaign); full = the product"""
+    cases = []
+    k = rng.below(3)
+    for li, (loc, rel, _, _) in enumerate(LOCATIONS):
+        for fi, (failure, texts, *_rest) in enumerate(LOCATION_FAILURES):
+            if failure == "modular_into_file" and not rel.endswith(".py"):
+                continue
+            for form in (LOCATION_FORMS if full else [LOCATION_FORMS[(li + fi + k) % 3]]):
+                cases.append((loc, failure, form, None))
+    # seeded documents with a dangling reference (single- and multi-module), at the locations with missing parents
+    for i in range(n_seeded):
+        loc, rel, _, _ = rng.choice(LOCATIONS)
+        wants_dir = not rel.endswith(".py")
+        doc = json.loads(seeded_doc(rng, 900 + i)[0])
+        if wants_dir:
+            doc["definitions"] = {(k_ if "." in k_ else "m." + k_): v for k_, v in doc["definitions"].items()}
+            for v in doc["definitions"].values():
+                v["properties"].pop("r", None)
+        else:
+            doc["definitions"] = {k_.split(".")[-1]: v for k_, v in doc["definitions"].items()}
+            for v in doc["definitions"].values():
+                v["properties"].pop("r", None)
+        # the dangling reference sits in the root schema (a reference to a missing definition below `definitions` alone is
+        # tolerated by the parser): a missing definition for a single module, a missing file for a package
+        doc.update({"title": f"Root{i}", **obj({"dangling": {"$ref": (f"no-such-file-{i}.json#/definitions/Missing" if wants_dir else f"#/nowhere{i}/Missing")}})})
+        cases.append((loc, "unresolvable_ref", rng.choice(LOCATION_FORMS), json.dumps(doc)))
+    return cases
+
+
+def campaign_locations(ck: Check, full: bool, n_seeded: int, stop_at_first: bool = False) -> None:
+    camp = ck.campaign("output locations: (output file / package directory below directories that do not exist yet | inside an existing directory | parent is a file) x (absolute, relative, through ..) x failure kinds at every stage (unresolvable $ref, unparsable text, no models, modular result into a file, encoding, missing header file, formatter, injected faults) + success control: a failed run leaves NO new directory (tree listing with empty directories + cwd before/after)")
+    t0 = time.time()
+    rng = ck.rng.fork("locations")
+    for loc, failure, form, text in location_product(rng, full, n_seeded):
+        location_run(ck, camp, loc, failure, form, text)
+        if stop_at_first and ck.failures:
+            break
+    camp.wall_s = time.time() - t0
+
+
+def campaign_chdir(ck: Check, n: int) -> None:
+    """the real context manager `chdir()` against its extracted table (driver `write.chdir`): on seeded targets — None, an existing
+    directory, a file-like path in an existing directory, a path below 1–3 directories that do not exist — with a body that returns or
+    raises: working directory while the body runs / afterwards, whether the body was reached, and whether entering it CREATED anything
+    (tree listing with empty directories). A context manager that creates its target by a call the translator does not see as an
+    effect disagrees here; the search then runs the output-location product."""
+    import datamodel_code_generator as d
+
+    camp = ck.campaign("chdir() real context manager vs extracted table (Lean driver write.chdir): target None / existing directory / file in existing directory / below missing directories x body returns / raises: cwd inside, cwd after, body reached, anything created")
+    t0 = time.time()
+    rng = ck.rng.fork("chdir")
+    shapes = ["none", "existing_dir", "file_in_existing_dir", "existing_file", "missing_1", "missing_2", "missing_3", "dir_below_missing"]
+    obs = []
+    for i in range(n):
+        shape = shapes[i % len(shapes)] if i < 2 * len(shapes) else rng.choice(shapes)
+        body_raises = bool((i // len(shapes)) % 2) if i < 2 * len(shapes) else rng.chance(1, 2)
+        relative = rng.chance(1, 3)
+        root = Path(tempfile.mkdtemp(dir=e2e.scratch_root())).resolve()
+        (root / "cwd").mkdir()
+        (root / "have").mkdir()
+        (root / "have" / "old.py").write_text("OLD = 1\n")
+        comps = [rng.choice(["a", "gen", "x.y", "out dir"]) + str(k) for k in range(3)]
+        target = {"none": None, "existing_dir": root / "have", "file_in_existing_dir": root / "have" / "models.py", "existing_file": root / "have" / "old.py",
+                  "missing_1": root / comps[0] / "models.py", "missing_2": root / comps[0] / comps[1] / "models.py",
+                  "missing_3": root / "have" / comps[0] / comps[1] / comps[2] / "models.py", "dir_below_missing": root / comps[0] / "pkg"}[shape]
+        expect_dir = None if target is None else (target if target.is_dir() else target.parent)
+        start = root / "cwd"
+        arg = target
+        if relative and target is not None:
+            start, arg = root, target.relative_to(root)
+        before = snapshot(root)
+        here = os.getcwd()
+        os.chdir(start)
+        inside, err = None, None
+        try:
+            with d.chdir(arg):
+                inside = os.getcwd()
+                if body_raises:
+                    raise Injected("body")
+        except BaseException as e:  # noqa: BLE001
+            err = e
+        after_cwd = os.getcwd()
+        os.chdir(here)
+        diff = tree_diff(before, snapshot(root))
+        shutil.rmtree(root, ignore_errors=True)
+        camp.evaluations += 1
+        entered = inside is not None
+        fault = "enter" if not entered else ("body" if body_raises else "none")
+        impl = {"inside": None if not entered else ("orig" if Path(inside) == start else ("target" if expect_dir is not None and Path(inside) == expect_dir.resolve() else "elsewhere")),
+                "after": "orig" if Path(after_cwd) == start else "moved", "created": bool(diff)}
+        camp.hit(f"target:{shape}")
+        camp.hit("body:" + ("not-reached:" + type(err).__name__ if not entered else ("raises" if body_raises else "returns")))
+        camp.hit("path:" + ("relative" if relative and target is not None else "absolute"))
+        key = {"shape": shape, "body_raises": body_raises, "relative": relative and target is not None}
+        camp.distinct.add(json.dumps(key, sort_keys=True))
+        obs.append((key, fault, target is not None, impl, diff, shape.startswith("missing") or shape == "dir_below_missing"))
+    reps = ck.driver.run([f"write.chdir {int(some)} {hx(fault)}" for _, fault, some, *_ in obs])
+    # a `mkdir` step of the table shows in the listing only where the directory was missing (what else an effect step does is visible always)
+    for (key, fault, some, impl, diff, dir_missing), rep in zip(obs, reps):
+        vals = dict(t.split("=", 1) for t in rep.split(" ")[1:])
+        model = {"inside": vals.get("inside") if fault != "enter" else None, "after": "orig" if vals.get("after") == "orig" else "moved", "created": vals.get("otherEffects") != "0" or (vals.get("mkdirs") != "0" and dir_missing)}
+        if fault == "enter" and vals.get("entered") == "true":
+            model["inside"] = "no-step-of-the-table-switches-directory"
+        if model != impl:
+            ck.notes["chdir_disagreement"] = True
+            ck.disagree(camp, {**key, "fault": fault}, model, {**impl, "tree_diff": diff[:3]})
+        if len(camp.samples) < 3 and key["shape"].startswith("missing"):
+            camp.samples.append({**key, "fault": fault, "model": model, "real": impl})
+    camp.wall_s = time.time() - t0
+
+
 def d17_model_correspondence(ck: Check) -> None:
     """the former D17 witness: model run with an unencodable text vs the real encoding failure"""
     camp = ck.campaign("former D17 witness: model run with an unencodable text vs the real encoding failure (both: failed, nothing changed)")
@@ -811,6 +1049,12 @@ def search_after_broken_table(ck: Check) -> None:
     output state, first hit wins (they are cheap and already targeted at the write protocol)"""
     # a refusal was removed / moved / re-guarded: the (result, output) the extracted table decides differently from the contract
     # points at the runs to make — every input kind that gives that kind of result, every output state of that kind
+    # an effect before the last may-raise step (in generate(), in the context manager it enters, in a helper): what such an effect
+    # leaves behind shows where the output location does not exist yet — the full product of locations x failure kinds x path forms
+    if ck.notes.get("chdir_disagreement") or (ck.notes.get("context_refuter") or "none") != "none" or (ck.notes.get("table_refuter") or "none").startswith("effect-before-raise"):
+        campaign_locations(ck, True, 60, stop_at_first=True)
+        if ck.failures:
+            return
     ref = ck.notes.get("refusal_contract_refuter") or "none"
     if ref != "none" and "/" in ref:
         kind, okind = ref.split("/")
@@ -833,6 +1077,8 @@ def search_after_broken_table(ck: Check) -> None:
     # directory matters — results of earlier runs made with other encodings / other versions of the schema
     ck.notes["stop_at_first_failure"] = True
     campaign_histories(ck, 300)
+    if not ck.failures:
+        campaign_locations(ck, True, 60, stop_at_first=True)
 
 
 def known_findings(ck: Check) -> None:
@@ -866,6 +1112,8 @@ def run(ck: Check) -> None:
     campaign_success(ck, 4 if quick else 40)
     campaign_headers(ck, 6 if quick else 120)
     campaign_histories(ck, 30 if quick else 400)
+    campaign_locations(ck, not quick, 8 if quick else 200)
+    campaign_chdir(ck, 48 if quick else 600)
     d17_model_correspondence(ck)
     ck.search_hooks.append(search_after_broken_table)
     known_findings(ck)
@@ -875,7 +1123,10 @@ def replay(ck: Check, path: str) -> int:
     data = json.loads(open(path).read())
     inp = data.get("input") or {}
     camp = ck.campaign("replay")
-    if "refusal" in inp:
+    if "location" in inp:
+        l = inp["location"]
+        location_run(ck, camp, l["name"], l["failure"], l["form"], l.get("text"), {"kind": "replay"})
+    elif "refusal" in inp:
         refusal_run(ck, camp, dict(inp["refusal"]), inp["output_state"], {"kind": "replay"}, relative=inp.get("relative_output", False))
     elif "doc" in inp:
         doc = inp["doc"]
